@@ -1483,3 +1483,122 @@ Lemma all_fixed_clean c a os :
   t03 (tn s) = false /\ t03f (tn s) = false /\ t06 (tn s) = false /\ t07 (tn s) = false /\
   t08 (tn s) = false /\ t12 (tn s) = false /\ t33 (tn s) = false.
 Proof. cbv zeta. apply all_fixed_no_taint; [apply Inv_reachable | apply fx_after]. Qed.
+
+(** * batch forms: results *)
+Ltac nilne :=
+  first [ solve [intros E0; contradiction]
+        | solve [exfalso; match goal with H : ?a <> ?a |- _ => apply H; reflexivity end] ].
+Lemma length_seqN a n : length (seqN a n) = n.
+Proof. revert a. induction n as [|n IH]; intros a; cbn [seqN length]; [reflexivity | rewrite IH; reflexivity]. Qed.
+
+Definition batch_send_spec (b : bool) (s : st) (h n : N) (s' : st) (o : out) : Prop :=
+  forall x, getH h s = Some x -> h_live x = true -> h_tx x = true ->
+  exists sent un,
+    seqN (next s) (N.to_nat n) = sent ++ un /\ q s' = q s ++ sent /\ acc s' = acc s ++ sent
+    /\ recvd s' = recvd s /\ back s' = back s ++ un /\ next s' = next s + n
+    /\ (sent <> [] -> h_closed x = false /\ rc s <> 0)
+    /\ match o_res o with
+       | RBOk k => b = false /\ un = [] /\ k = n
+       | RBErr k cl u => b = false /\ u = un /\ un <> [] /\ k = N.of_nat (length sent)
+                         /\ (if cl then sent = [] /\ (h_closed x = true \/ rc s = 0)
+                             else length (q s') = N.to_nat (cap s))
+       | RMOk k u => b = true /\ u = un /\ k = N.of_nat (length sent)
+                     /\ (un <> [] -> length (q s') = N.to_nat (cap s))
+       | RMClosed u => b = true /\ u = un /\ sent = [] /\ un <> [] /\ (h_closed x = true \/ rc s = 0)
+       | _ => False
+       end.
+
+Lemma try_send_batch_spec s b h n :
+  Inv s -> batch_send_spec b s h n (fst (step s (TrySendBatch b h n))) (snd (step s (TrySendBatch b h n))).
+Proof.
+  intros H0. pose proof (Inv_reset s H0) as H1.
+  unfold step. fold (reset s). set (s1 := reset s) in *.
+  unfold batch_send_spec. intros x Hg Hl Htx. change (getH h s1 = Some x) in Hg.
+  rewrite Hg, Hl, Htx. cbn [negb].
+  change (next s1) with (next s). change (rc s1) with (rc s).
+  pose proof (InvH_fresh_n (N.to_nat n) s1 H1) as Hf. rewrite N2Nat.id in Hf. change (next s1) with (next s) in Hf.
+  set (vs := seqN (next s) (N.to_nat n)) in *. set (s2 := with_next (next s + n) s1) in *.
+  assert (Hlen : length vs = N.to_nat n) by apply length_seqN.
+  destruct (N.eqb_spec n 0) as [En|En].
+  - subst n. cbn in vs. exists [], []. destruct b; cbn [ret fst snd o_res]; st_simpl; rewrite ?app_nil_r, ?N.add_0_r;
+      repeat split; auto; try nilne; try congruence;
+      try (subst s2; cbn [next with_next]; apply N.add_0_r).
+  - assert (Hne : vs <> []) by (intros E; rewrite E in Hlen; cbn in Hlen; lia).
+    assert (Hfail : (h_closed x = true \/ rc s = 0) ->
+              exists sent un, vs = sent ++ un /\ q (with_back (back s2 ++ vs) s2) = q s ++ sent
+                /\ acc (with_back (back s2 ++ vs) s2) = acc s ++ sent /\ recvd (with_back (back s2 ++ vs) s2) = recvd s
+                /\ back (with_back (back s2 ++ vs) s2) = back s ++ un /\ next (with_back (back s2 ++ vs) s2) = next s + n
+                /\ (sent <> [] -> h_closed x = false /\ rc s <> 0)
+                /\ sent = [] /\ un = vs).
+    { intros _. exists [], vs. st_simpl. rewrite !app_nil_r. repeat split; auto; try nilne. }
+    destruct (h_closed x) eqn:Hc.
+    { destruct (Hfail (or_introl eq_refl)) as (sent & un & E1 & E2 & E3 & E4 & E5 & E6 & E7 & E8 & E9). subst sent un.
+      exists [], vs. destruct b; cbn [andb N.eqb ret fst snd o_res]; repeat split; auto; try nilne. }
+    change (rc s2) with (rc s).
+    destruct (N.eqb_spec (rc s) 0) as [Er|Er].
+    { destruct (Hfail (or_intror Er)) as (sent & un & E1 & E2 & E3 & E4 & E5 & E6 & E7 & E8 & E9). subst sent un.
+      exists [], vs. destruct b; cbn [andb N.eqb ret fst snd o_res]; repeat split; auto; try nilne. }
+    destruct (send_loop_inv vs s2 Hf) as [A (sent & E1 & E2 & E3 & E4 & Fr & E6 & E7)].
+    destruct (send_loop vs s2) as [s3 un]. cbn [fst snd] in *.
+    destruct Fr as (Fcap & Ffx & Fsc & Frc & Fhs & Fnext & Fback & Fdropped & Ffreed & Ftn & Fdk).
+    change (q s2) with (q s) in E2. change (acc s2) with (acc s) in E3. change (recvd s2) with (recvd s) in E4.
+    change (next s2) with (next s + n) in Fnext. change (back s2) with (back s) in Fback. change (cap s2) with (cap s) in Fcap.
+    assert (Hk : n - N.of_nat (length un) = N.of_nat (length sent)).
+    { rewrite E1, app_length in Hlen. lia. }
+    exists sent, un. destruct un as [|u un'].
+    + rewrite app_nil_r in E1. destruct b; cbn [ret fst snd o_res]; rewrite ?app_nil_r;
+        repeat split; auto; try nilne; try (cbn [length] in Hk; rewrite N.sub_0_r in Hk; congruence).
+    + assert (Hfull : length (q s3) = N.to_nat (cap s)).
+      { assert (Hx : u :: un' <> []) by discriminate. specialize (E7 Hx). unfold nq, ncap in E7. rewrite Fcap in E7. exact E7. }
+      destruct b; cbn [andb ret fst snd o_res]; st_simpl; rewrite ?Fback, ?Fnext, ?Hk;
+        repeat split; auto; try discriminate.
+Qed.
+
+Definition batch_recv_spec (b : bool) (s : st) (h m : N) (s' : st) (o : out) : Prop :=
+  forall x, getH h s = Some x -> h_live x = true -> h_tx x = false ->
+  let P (l : list N) :=
+    q s = l ++ q s' /\ recvd s' = recvd s ++ l /\ acc s' = acc s
+    /\ ((m = 0 /\ l = []) \/
+        (m <> 0 /\ h_closed x = false /\ l <> [] /\ length l = Nat.min (N.to_nat m) (length (q s)))) in
+  match o_res o with
+  | RVals l => b = false /\ P l
+  | RNVals l => b = true /\ P l
+  | REmpty => m <> 0 /\ h_closed x = false /\ q s = [] /\ sc s <> 0 /\ unchanged_data s s'
+  | RDisc => m <> 0 /\ unchanged_data s s' /\ (h_closed x = true \/ (q s = [] /\ sc s = 0))
+  | _ => False
+  end.
+
+Lemma acc_wake_senders n : forall s, acc (wake_senders n s) = acc s.
+Proof.
+  induction n as [|n IH]; intros s; cbn [wake_senders]; [reflexivity|].
+  rewrite IH. destruct (wake_one_send_frame s) as (_&_&_&_&_&_&_&_&A&_). exact A.
+Qed.
+
+Lemma try_recv_batch_spec s b h m :
+  batch_recv_spec b s h m (fst (step s (TryRecvBatch b h m))) (snd (step s (TryRecvBatch b h m))).
+Proof.
+  unfold step. set (s1 := with_bad false (with_dk [] (with_wk [] s))).
+  unfold batch_recv_spec. intros x Hg Hl Htx. change (getH h s1 = Some x) in Hg.
+  rewrite Hg, Hl, Htx. cbn [negb]. cbv zeta.
+  change (q s1) with (q s). change (sc s1) with (sc s).
+  destruct (N.eqb_spec m 0) as [Em|Em].
+  - destruct b; cbn [ret fst snd o_res]; (split; [reflexivity|]);
+      (split; [reflexivity|]; split; [symmetry; apply app_nil_r|]; split; [reflexivity|]; left; auto).
+  - destruct (h_closed x) eqn:Hc.
+    + cbn [ret fst snd o_res]. split; [exact Em|]. split; [unfold unchanged_data; repeat split|]. auto.
+    + destruct (Nat.min (N.to_nat m) (length (q s))) as [|k'] eqn:Ek.
+      * assert (Hq : q s = []).
+        { destruct (q s) as [|v t]; [reflexivity|]. cbn [length] in Ek. lia. }
+        destruct (N.eqb_spec (sc s) 0) as [Es|Es]; cbn [ret fst snd o_res].
+        -- split; [exact Em|]. split; [unfold unchanged_data; repeat split|]. auto.
+        -- repeat split; auto.
+      * destruct (same_wake_senders (N.to_nat m) (drain (S k') s1)) as (A & B & C).
+        pose proof (acc_wake_senders (N.to_nat m) (drain (S k') s1)) as D.
+        assert (Hl2 : firstn (S k') (q s) <> []).
+        { destruct (q s) as [|v t]; [cbn [length] in Ek; lia | cbn; discriminate]. }
+        assert (Hlen : length (firstn (S k') (q s)) = S k').
+        { rewrite firstn_length. lia. }
+        destruct b; cbn [ret fst snd o_res]; (split; [reflexivity|]);
+          rewrite B, C, D; unfold drain; st_simpl;
+          (split; [symmetry; apply firstn_skipn|]; split; [reflexivity|]; split; [reflexivity|]; right; auto).
+Qed.
